@@ -340,7 +340,14 @@ where
         log!("{}: {:?}", "Token ahead".paint(LOG), &next_token);
 
         loop {
-            let action = self.definition.actions(state, next_token.kind)[0];
+            // A lexer which doesn't honor the expected set may return a token
+            // with no action in the current state. Report it as an error.
+            let action = self
+                .definition
+                .actions(state, next_token.kind)
+                .first()
+                .copied()
+                .unwrap_or(Action::Error);
 
             match action {
                 Action::Shift(state_id) => {
